@@ -235,7 +235,7 @@ PROPS = {
                         "'for whatever RNG' holds up to the transcript-rejection event (probability about 2^-250 per challenge)"],
     },
     "C19": {
-        "units": ["transcripts", "nonce", "codec"],
+        "units": ["transcripts", "nonce", "codec", "gens_chain"],
         "design_ref": "DESIGN.md section 7, C19",
         "technique": "contract-based deductive verification (Verus): the released wire format written once as specification functions (transcript layout, nonce KDF byte layout, proof byte layout); the real code proved to conform",
         "claim": "Conformance to the frozen 0.4.0 wire specification as written in /verif/spec: the transcript layout full_log (domain separator, labels H, G, N, T, M, Ci, "
@@ -250,17 +250,20 @@ PROPS = {
     "C11": {
         "standin_replay": "bounded, not proof: the input-free generator statics (value generator, six blinding generators, their compressed forms) and the vector generators for "
                           "(bits, capacity) in {(4,1),(4,4),(8,2),(64,2)} and their 4x capacities are computed by the real crate and checked for non-identity, pairwise distinctness, "
-                          "capacity independence and compress() agreement",
-        "units": ["gens_new", "gens", "ctors"],
+                          "capacity independence and compress() agreement, and compared with an independent recomputation of the documented derivations (SHAKE256 chain, SHA3-512 hash to "
+                          "point, Ristretto basepoint) done with the sha3 crate directly",
+        "units": ["gens_new", "gens_chain", "gens", "ctors"],
         "design_ref": "DESIGN.md section 7, C11",
         "technique": "contract-based deductive verification (Verus) of the real BulletproofGens::new, generator iterators and accessors against a SHAKE256 / hash-to-group model",
         "claim": "Proved: BulletproofGens::new(n, c) returns Ok iff c <= 2^32, and then g_vec[i][j] is the j-th point of the generator chain labelled 'G' || le32(i) and h_vec[i][j] "
                  "the j-th point of the chain labelled 'H' || le32(i), for all i < c, j < n; the precomputation table is exactly the interleaving of the flattened G and H vectors; "
                  "g_iter / h_iter (the real AggregatedGensIter::next, verified against vstd's iterator laws) yield the first n*m generators party-major; RangeStatement::init stores "
-                 "compress(commitment_i) position-wise; the accessors return the stored fields. Determinism is a consequence of the functional contracts. NOT decidable by "
+                 "compress(commitment_i) position-wise; the accessors return the stored fields. The derivation primitives themselves are under contract (unit gens_chain): "
+                 "GeneratorsChain::new absorbs exactly 'GeneratorsChain' || label into SHAKE256, GeneratorsChain::next returns from_uniform_bytes of the next 64 output bytes, and "
+                 "hash_from_bytes_sha3_512(x) = from_uniform_bytes(SHA3-512(x)) - against uninterpreted SHAKE256 / SHA3-512 functions. Determinism is a consequence of the functional contracts. NOT decidable by "
                  "contracts: pairwise distinctness and non-identity (facts about concrete SHAKE/SHA3 outputs), the once-initialised statics of ristretto.rs (string formatting "
                  "inside OnceCell closures) and 'on every thread'.",
-        "assumptions": ["GeneratorsChain::new(label).take(n) is modelled as the first n points p_from_uniform(SHAKE256('GeneratorsChain' || label)[64j..64j+64]) (site-specific rewrite R-CHAINTAKE; the chain's own body is not under contract)",
+        "assumptions": ["GeneratorsChain::new(label).take(n) is modelled as the first n points p_from_uniform(SHAKE256('GeneratorsChain' || label)[64j..64j+64]) (site-specific rewrite R-CHAINTAKE: `take(n)` of the chain is its first n `next()` results; new / next themselves are verified in unit gens_chain)",
                         "byteorder::LittleEndian::write_u32, Iterator::flat_map over |v| v.iter(), itertools::interleave and the dalek precomputation constructor are modelled by their documented sequence semantics",
                         "blinding generators and the value generator (ristretto.rs) are outside the units under contract"],
     },
